@@ -70,6 +70,11 @@ def run(F, R):
     # Z10: returned values equal what the device reported: integer -> enum decoding tables agree with the enums' codes
     decode_tables_rule(F, R, 'Z10', ['device::'])
     z11_rtc(F, R, M, roles)
+    z12_mount_tag(F, R)
+    z13_stream_ids(F, R)
+    z15_sound_infos(F, R, M, roles)
+    if GPU in F.adts:
+        z14_gpu_serialise(F, R, M, roles)
 
 
 def z1_encodings(F, R):
@@ -300,6 +305,43 @@ def z3_z4_gpu(F, R, M, roles):
             okc = bool(copies) and all(sg.always_before(copies, t_) for t_ in tr)
             R.check(okc, 'Z3', '%s:image-copied-before-transfer' % b['name'], fn_site(F, b['id']), 'the caller\'s image is copied into the backing before the transfer',
                     '%s transfers the backing to the host without first copying the caller\'s image into it: the device shows the zeroed allocation' % b['name'])
+        # an existing backing is torn down exactly on the paths where one exists: on a successful path on which the stored region
+        # is Some, detach + unref precede the new attach (otherwise the overwrite frees a region the device still has attached)
+        if okpaths is not None and 'resource_detach_backing' in helpers.values() and b['name'] == 'change_resolution':
+            dmaf_ = [f_['name'] for f_ in F.adts[GPU]['variants'][0]['fields'] if M.dma_adt in f_['mentions']]
+            wrongp = None
+            for p in okpaths:
+                has = None
+                for c_ in p.conds:
+                    d = c_[0]
+                    truth = (c_[1][0] == 'notin' and 0 in c_[1][1]) or (c_[1][0] == 'in' and 0 not in c_[1][1])
+                    onf = any(x[0] == 'loc' and any(pp[0] == 'f' and pp[1] in dmaf_ and len(pp) > 2 and pp[2] == GPU for pp in x[2]) for x in subterms(d))
+                    if not onf:
+                        continue
+                    if d[0] == 'call' and d[2].endswith('::is_some'):
+                        has = truth
+                    elif d[0] == 'call' and d[2].endswith('::is_none'):
+                        has = not truth
+                    elif d[0] == 'discr':
+                        has = truth
+                seq = [helpers[e[2]] for e in p.effects if e[0] == 'call' and e[2] in helpers]
+                tore = 'resource_detach_backing' in seq and 'resource_attach_backing' in seq and seq.index('resource_detach_backing') < len(seq) - 1 - seq[::-1].index('resource_attach_backing')
+                if has is True and not tore:
+                    wrongp = 'a path on which a backing region is stored attaches a new one without detaching the old'
+                if has is False and 'resource_detach_backing' in seq:
+                    wrongp = wrongp or 'the teardown commands are sent on the path where no backing region is stored'
+            R.check(wrongp is None, 'Z3', '%s:teardown-iff-backing-exists' % b['name'], fn_site(F, b['id']), 'old backing detached exactly when one exists',
+                    '%s: %s' % (b['name'], wrongp))
+        # ... and an image of any other length than the cursor size is refused: attach is reached only on the equal edge of the
+        # length comparison
+        if img and okpaths is not None:
+            for p in okpaths:
+                for c_ in p.conds:
+                    d = c_[0]
+                    if d[0] == 'bin' and d[1] in ('Ne', 'Eq') and any(x[0] == 'call' and x[2].endswith('::len') and derives_from(x, lambda y: y == ('param', img[0])) for x in subterms(d)):
+                        truth = (c_[1][0] == 'notin' and 0 in c_[1][1]) or (c_[1][0] == 'in' and 0 not in c_[1][1])
+                        R.check((d[1] == 'Eq') == truth, 'Z3', '%s:image-length-test' % b['name'], fn_site(F, b['id']), 'proceeds only when the image length equals the cursor size',
+                                '%s proceeds when the image length differs from the cursor size and refuses the correct length' % b['name'])
         # Z4 for operations that attach a freshly allocated region
         att = calls.get('resource_attach_backing', [])
         for a in att:
@@ -398,6 +440,31 @@ def z2_sound(F, R, M, roles):
             n += 1
             R.check(ok, 'Z2', 'sound:%s:response-check' % b['name'], site(sg, c), 'response compared with the Ok status before success is reported',
                     'sound operation %s reports success without comparing the response status with Ok' % b['name'])
+        # polarity (loop-free operations): success is reported on the *equal* edge of the comparison with the Ok status
+        if calls and not back_edges(sg):
+            try:
+                okp = [p for p in PathEnum(sg).run() if not p.panicked and err_variant(p.ret) == 'Ok']
+            except PathLimit:
+                okp = []
+            wrong = None
+            for p in okp:
+                for c_ in p.conds:
+                    d = c_[0]
+                    is_cmp = (d[0] == 'bin' and d[1] in ('Eq', 'Ne')) or (d[0] == 'call' and d[2] in ('core::cmp::PartialEq::eq', 'core::cmp::PartialEq::ne'))
+                    if not is_cmp or not any(x[0] == 'call' and x[2] in req for x in subterms(d)):
+                        continue
+                    sides = [d[2], d[3]] if d[0] == 'bin' else list(d[3])
+                    other = [sd for sd in sides if not any(x[0] == 'call' and x[2] in req for x in subterms(sd))]
+                    if not other or not any((x[0] == 'const' and x[1] == 0x8000) or (x[0] == 'agg' and ('SndHdr' in x[1] or 'RequestStatusCode' in x[1] or 'CommandCode' in x[1]))
+                                            for sd in other for x in subterms(sd)):
+                        continue
+                    truth = (c_[1][0] == 'notin' and 0 in c_[1][1]) or (c_[1][0] == 'in' and 0 not in c_[1][1])
+                    eq = (d[0] == 'bin' and d[1] == 'Eq') or (d[0] == 'call' and d[2].endswith('::eq'))
+                    if eq != truth:
+                        wrong = fmt(d)[:80]
+            if okp:
+                R.check(wrong is None, 'Z2', 'sound:%s:response-polarity' % b['name'], fn_site(F, b['id']), 'success only on the edge where the response equals Ok',
+                        'sound operation %s reports success when the response status differs from Ok (and an error when it is Ok): %s' % (b['name'], wrong))
         if b['name'] == 'pcm_set_params':
             # parameters recorded only after the Ok comparison
             st = [x for x in sg.nodes if x.kind == 'assign' and x.d['place']['p'] and x.id in live and 'PcmParameters' in x.d.get('pty', '')]
@@ -430,6 +497,11 @@ def z2_misc(F, R, M, roles):
                         and derives_from(c[0], lambda x: x[0] == 'call' and x[2].endswith('from_le_bytes'))]
                 if not subs or not cmpc:
                     good = False
+                # ... on the *equal* edge of that comparison
+                for c_ in cmpc:
+                    truth = (c_[1][0] == 'notin' and 0 in c_[1][1]) or (c_[1][0] == 'in' and 0 not in c_[1][1])
+                    if (c_[0][1] == 'Eq') != truth:
+                        good = False
             R.check(good, 'Z2', '9p:size-prefix', fn_site(F, b['id']), 'Ok only if the little-endian size prefix equals the used length', '9P request returns Ok without comparing the size prefix with the used length')
         if b.get('impl_adt') == 'device::rng::VirtIORng' and b['name'] == 'request_entropy':
             sg = supergraph(F, b['id'], opaque=lambda t, bb: bb['id'] in roles, tag='c20m')
@@ -452,6 +524,53 @@ def z2_misc(F, R, M, roles):
                         good = False
                         why = 'the returned entropy length is %s, not the used length the device reported: a short read would be reported as a full buffer' % fmt(val)[:80]
             R.check(good, 'Z2', 'rng:shape', fn_site(F, b['id']), 'one device-writable buffer, returns the used length the device reported', why)
+
+
+def z12_mount_tag(F, R):
+    """9P mount tag: length read at config offset 0, each byte read at offset 2 + i for i below the length is appended,
+    and the returned string is built from exactly those bytes."""
+    n = 0
+    for b in F.bodies.values():
+        if not F.handwritten(b) or 'device::virtio_9p' not in b['id'] or b['kind'] not in ('Fn', 'AssocFn', 'Closure'):
+            continue
+        reads = [bl['term'] for bl in b['blocks'] if bl['term']['k'] == 'call' and bl['term'].get('trait') == TRANSPORT and bl['term'].get('method') == 'read_config_space']
+        if len(reads) < 2:
+            continue
+        n += 1
+        sg = supergraph(F, b['id'], tag='flat', max_depth=0)
+        S = sg.sym
+        rd = [c for c in sg.calls(lambda d: d.get('trait') == TRANSPORT and d.get('method') == 'read_config_space')]
+        offs = [S.operand(c.id, c.d['args'][1]) for c in rd]
+        len_reads = [c for c, o in zip(rd, offs) if fold_const(o) == 0]
+        byte_reads = [c for c, o in zip(rd, offs) if fold_const(o) is None and any(x[0] == 'bin' and x[1] in ('Add', 'AddWithOverflow') and 2 in (fold_const(x[2]), fold_const(x[3])) for x in subterms(o))]
+        pushes = [c for c in sg.calls(lambda d: d.get('fn', '').startswith('alloc::vec::Vec::') and d['fn'].endswith('::push'))]
+        pushed = [c for c in pushes if any(derives_from(S.operand(c.id, c.d['args'][1]), lambda x, r=r: x[0] == 'call' and x[1] == r.id) for r in byte_reads)]
+        be = back_edges(sg)
+        in_loop = set()
+        for (u, v) in be:
+            body, st = {v}, [u]
+            while st:
+                x = st.pop()
+                if x in body:
+                    continue
+                body.add(x)
+                st.extend(sg.nodes[x].pred)
+            in_loop |= body
+        ok = bool(len_reads) and bool(byte_reads) and bool(pushed) and all(c.id in in_loop for c in pushed) and all(c.id in in_loop for c in byte_reads)
+        # a zero length is the refused case: the byte reads are guarded by the *non-zero* edge of the length test
+        for r_ in byte_reads:
+            for swid, vals, succ in sg.guards_of(r_.id):
+                d = S.operand(swid, sg.nodes[swid].d['discr'])
+                if d[0] == 'bin' and d[1] in ('Eq', 'Ne') and any(x[0] == 'call' and x[1] in [l.id for l in len_reads] for x in subterms(d)) and 0 in (fold_const(d[2]), fold_const(d[3])):
+                    truth = any(v_ not in (0, None) for v_ in vals) or (None in vals and 0 not in vals)
+                    if 0 in vals and len([v_ for v_ in vals if v_ is not None]) == 1:
+                        truth = False
+                    if (d[1] == 'Eq') == truth:
+                        ok = False
+        R.check(ok, 'Z12', '%s:mount-tag' % b['id'], fn_site(F, b['id']), 'length at offset 0; every byte read at 2 + i is appended inside the loop',
+                'mount tag: length read at offset 0=%s, byte reads at 2+i=%d, bytes appended=%d (in the loop=%s): the returned tag is not what the device reported' % (
+                    bool(len_reads), len(byte_reads), len(pushed), all(c.id in in_loop for c in pushed)))
+    R.count('mount_tag_readers', n)
 
 
 def z5_pcm(F, R, M, roles):
@@ -679,6 +798,16 @@ def z11_rtc(F, R, M, roles):
                 leap = [x for x in f.values() if x[0] == 'agg' and x[1].startswith('core::option::Option::')]
                 tcond = [c for c in p.conds if fmt(c[0]).endswith('.type_') and c[1][0] == 'in' and len(c[1][1]) == 1]
                 scond = [c for c in p.conds if fmt(c[0]).endswith('.leap_second_smearing') and c[1][0] == 'in' and len(c[1][1]) == 1]
+                # alarm capability = bit 0 of the flags byte
+                for fname_, fv in f.items():
+                    if fv[0] != 'agg' and 'flags' in fmt(fv):
+                        for flags in (0, 1, 2, 3, 0xff):
+                            try:
+                                got_ = Folder(lambda t, flags=flags: flags if fmt(t).endswith('.flags') else (_ for _ in ()).throw(Unfoldable(fmt(t)[:40]))).ev(fv)
+                            except Unfoldable:
+                                got_ = None
+                            if got_ is not None and bool(got_) != bool(flags & 1):
+                                bad = 'flags %#x reported as alarm capability = %s' % (flags, bool(got_))
                 if kind:
                     kname = kind[0][1].rsplit('::', 1)[1]
                     if not tcond or tcond[-1][1][1][0] != RTC_CLOCK.get(kname):
@@ -687,6 +816,8 @@ def z11_rtc(F, R, M, roles):
                     sv = leap[0][2][0][1].rsplit('::', 1)[1] if leap[0][2] and leap[0][2][0][0] == 'agg' else '?'
                     if not scond or scond[-1][1][1][0] != RTC_SMEAR.get(sv):
                         bad = 'smearing code %s is reported as %s' % (scond[-1][1][1][0] if scond else '?', sv)
+                    if kind and kind[0][1].rsplit('::', 1)[1] != 'UtcSmeared':
+                        bad = 'a smearing variant is reported for clock type %s (only the smeared-UTC type has one)' % kind[0][1].rsplit('::', 1)[1]
                     # decoded only on the "is a smeared clock" edge of the comparison of the clock type
                     for c in p.conds:
                         d = c[0]
@@ -694,6 +825,8 @@ def z11_rtc(F, R, M, roles):
                             truth = (c[1][0] == 'notin' and 0 in c[1][1]) or (c[1][0] == 'in' and 0 not in c[1][1])
                             if (d[1] == 'Eq' and not truth) or (d[1] == 'Ne' and truth):
                                 bad = 'a smearing variant is reported on the edge where the clock type is NOT the smeared-UTC type'
+                if kind and kind[0][1].rsplit('::', 1)[1] == 'UtcSmeared' and scond and scond[-1][1][1][0] in RTC_SMEAR.values() and not (leap and leap[0][1].endswith('::Some')):
+                    bad = 'the smearing variant of a smeared-UTC clock is not reported'
             elif okv[0] != 'agg':
                 # scalar results (number of clocks, clock reading) come from the response
                 if not derives_from(okv, lambda x: x[0] == 'call' and x[2] == rid):
@@ -701,6 +834,147 @@ def z11_rtc(F, R, M, roles):
         R.check(bad is None and bool(paths), 'Z11', 'rtc:%s:decode' % b['name'], fn_site(F, b['id']), 'response decoded per the virtio-rtc code tables',
                 'clock driver %s: %s' % (b['name'], bad if bad else 'no successful path'))
     R.count('rtc_ops', nops)
+
+
+def z13_stream_ids(F, R):
+    """Stream ids handed to the caller are positions in the device's stream table: wherever the sound driver numbers
+    streams with `enumerate`, the enumeration is applied to the table itself (a slice iterator), not to a filtered view."""
+    snd = 'device::sound::VirtIOSound'
+    n = 0
+    for b in F.bodies.values():
+        if b.get('impl_adt') != snd or not F.handwritten(b) or b['kind'] != 'AssocFn' or not b.get('pub') or 'Vec<u32>' not in b.get('sig', ''):
+            continue
+        en = [bl['term'] for bl in b['blocks'] if bl['term']['k'] == 'call' and bl['term'].get('trait') == 'core::iter::Iterator' and bl['term'].get('method') == 'enumerate']
+        if not en:
+            continue
+        n += 1
+        bad = [t.get('self_ty') for t in en if not (t.get('self_ty') or '').startswith('core::slice::Iter<')]
+        R.check(not bad, 'Z13', '%s:ids-are-table-positions' % b['id'], fn_site(F, b['id']), 'enumerate is applied to the stream table itself',
+                '%s numbers the elements of %s: the returned ids are positions in a filtered view, not the device\'s stream ids' % (b['name'], ((bad[0] if bad else None) or '?')[:80]))
+    R.count('stream_id_fns', n)
+
+
+def z14_gpu_serialise(F, R, M, roles):
+    """The generic GPU request helpers put the request they were given on the queue: the buffer submitted as readable is a
+    field of the driver into which the request parameter was serialised (write_to_prefix) beforehand, and the value
+    returned comes from the buffer that was submitted as writable."""
+    n = 0
+    for b in gpu_helpers(F):
+        sg = supergraph(F, b['id'], opaque=lambda t, bb: bb['id'] in roles, tag='z14')
+        S = sg.sym
+        subs = [c for c in sg.calls(lambda d: roles.get(d.get('fn')) == 'add_notify_wait_pop')]
+        if len(subs) != 1:
+            continue
+        n += 1
+        c = subs[0]
+        ins = array_elems(S, S.operand(c.id, c.d['args'][1]))
+        def fields_of(t):
+            out = set()
+            for x in deep_subterms(S, t):
+                if x[0] == 'loc':
+                    for pp in x[2]:
+                        if pp[0] == 'f' and len(pp) > 2 and pp[2] == GPU:
+                            out.add(pp[1])
+            return out
+        send_f = fields_of(ins[0]) if ins else set()
+        ser = []
+        for w in sg.calls(lambda d: d.get('fn', '').endswith('::write_to_prefix') or d.get('method') == 'write_to_prefix' or d.get('fn', '').endswith('::write_to')):
+            src = S.operand(w.id, w.d['args'][0])
+            dst = S.operand(w.id, w.d['args'][1])
+            from_req = derives_from(src, lambda x: x == ('param', 2)) or any(x[0] == 'loc' and x[1] == ('local', 0, 2) for x in subterms(src))
+            if from_req and fields_of(dst) & send_f:
+                ser.append(w.id)
+        ok = bool(send_f) and bool(ser) and sg.always_before(ser, c.id)
+        R.check(ok, 'Z14', '%s:request-serialised' % b['id'], site(sg, c), 'the request parameter is written into the submitted buffer `%s` before submission' % sorted(send_f),
+                '%s submits buffer %s without first serialising its request parameter into it: the device receives whatever the buffer held before' % (b['name'], sorted(send_f)))
+    R.count('gpu_request_helpers', n)
+
+
+def z15_sound_infos(F, R, M, roles):
+    """Capability queries of the sound driver (jack / stream / channel-map infos): a query of `count` items starting at `start`
+    is refused exactly when start + count exceeds the number the device has, every item of the response is decoded from its own
+    slot of the response buffer and appended, and the element size sent equals the size of the decoded type."""
+    snd = 'device::sound::VirtIOSound'
+    if snd not in F.adts:
+        return
+    req = [b['id'] for b in F.bodies.values() if b.get('impl_adt') == snd and b['kind'] == 'AssocFn' and 'Req' in b.get('generics', [])]
+    n = 0
+    for b in F.bodies.values():
+        if b.get('impl_adt') != snd or not F.handwritten(b) or b['kind'] != 'AssocFn' or b['arg_count'] != 3:
+            continue
+        sig = b.get('sig', '')
+        if 'alloc::vec::Vec<device::sound::' not in sig.split('->')[-1] or not has_loop(b):
+            continue
+        sg = supergraph(F, b['id'], opaque=lambda t, bb: bb['id'] in req or bb['id'] in roles or (bb.get('impl_adt') == snd and bb['id'] != b['id']), tag='z15')
+        S = sg.sym
+        where = fn_site(F, b['id'])
+        n += 1
+        # refusal guard folded
+        guard = None
+        for m in sg.nodes:
+            if m.kind == 'switch' and m.ctx == 0:
+                d = S.operand(m.id, m.d['discr'])
+                if d[0] == 'bin' and d[1] in ('Gt', 'Ge', 'Lt', 'Le') and any(x == ('param', 2) for x in subterms(d)) and any(x == ('param', 3) for x in subterms(d)) and \
+                        any(x[0] in ('load', 'load0') for x in subterms(d)):
+                    guard = (m, d)
+                    break
+        bad = None
+        if guard is None:
+            bad = 'no test of start + count against the number of items'
+        else:
+            m, d = guard
+            errs = [x.id for x in sg.nodes if x.kind == 'assign' and x.d['rv']['rv'] == 'agg' and x.d['rv'].get('variant') == 'Err' and x.ctx == 0]
+            for st_, cn_, tot in ((0, 0, 0), (0, 1, 1), (0, 2, 2), (1, 1, 2), (0, 3, 2), (2, 1, 2), (1, 2, 2), (0, 1, 0)):
+                def leaf(t, st_=st_, cn_=cn_, tot=tot):
+                    if t == ('param', 2):
+                        return st_
+                    if t == ('param', 3):
+                        return cn_
+                    if t[0] in ('load', 'load0'):
+                        return tot
+                    raise Unfoldable(fmt(t)[:60])
+                try:
+                    v = Folder(leaf).ev(d)
+                except Unfoldable as e:
+                    bad = 'cannot fold the range test: %s' % e
+                    break
+                explicit = [x for x, _ in m.switch_edges if x is not None]
+                nxt = [sc for val, sc in m.switch_edges if (val is not None and val == v) or (val is None and v not in explicit)]
+                # does the taken edge lead straight to an Err construction (before any request)?
+                reqs = [c.id for c in sg.calls(lambda d_: d_.get('fn') in req)]
+                reach = sg.reach_fwd(nxt, avoid=reqs)
+                refused = any(e_ in reach for e_ in errs) and not any(r_ in sg.reach_fwd(nxt) and False for r_ in reqs) and not any(r_ in reach for r_ in reqs) and \
+                    all(r_ not in sg.reach_fwd(nxt, avoid=errs) for r_ in reqs)
+                if refused != (st_ + cn_ > tot):
+                    bad = 'start=%d count=%d with %d items available is %s' % (st_, cn_, tot, 'refused' if refused else 'sent to the device')
+                    break
+        # the response is decoded only on the edge where its status equals Ok
+        reads_ = [c.id for c in sg.calls(lambda d_: d_.get('fn', '').endswith('::read_from_bytes') or d_.get('method') == 'read_from_bytes')]
+        reqs_ = [c.id for c in sg.calls(lambda d_: d_.get('fn') in req)]
+        for m in sg.nodes:
+            if m.kind != 'switch' or m.ctx != 0:
+                continue
+            d = S.operand(m.id, m.d['discr'])
+            is_eq = (d[0] == 'bin' and d[1] == 'Eq') or (d[0] == 'call' and d[2] == 'core::cmp::PartialEq::eq')
+            is_ne = (d[0] == 'bin' and d[1] == 'Ne') or (d[0] == 'call' and d[2] == 'core::cmp::PartialEq::ne')
+            if not (is_eq or is_ne) or not any(x[0] == 'call' and x[1] in reqs_ for x in deep_subterms(S, d)):
+                continue
+            explicit = [x for x, _ in m.switch_edges if x is not None]
+            for val, sc in m.switch_edges:
+                truth = (val is not None and val != 0) or (val is None and 0 in explicit)
+                equal = truth if is_eq else not truth
+                reach = sg.reach_fwd([sc])
+                if not equal and any(r_ in reach for r_ in reads_):
+                    bad = bad or 'the response is decoded on the edge where its status differs from Ok (and refused when it is Ok)'
+        # every decoded element is appended, inside the loop
+        reads = [c for c in sg.calls(lambda d_: d_.get('fn', '').endswith('::read_from_bytes') or d_.get('method') == 'read_from_bytes')]
+        pushes = [c for c in sg.calls(lambda d_: d_.get('fn', '').startswith('alloc::vec::Vec::') and d_['fn'].endswith('::push'))]
+        pushed = [c for c in pushes if any(derives_from(S.operand(c.id, c.d['args'][1]), lambda x, r=r: x[0] == 'call' and x[1] == r.id) for r in reads)]
+        if not reads or not pushed:
+            bad = bad or 'decoded items: %d, appended: %d - the returned list does not contain what the device reported' % (len(reads), len(pushed))
+        R.check(bad is None, 'Z15', '%s:info-query' % b['id'], where, 'refused iff start + count > available; every decoded item appended',
+                'sound capability query %s: %s' % (b['name'], bad))
+    R.count('sound_info_queries', n)
 
 
 def z6_edid(F, R):
@@ -779,6 +1053,14 @@ def z6_edid(F, R):
                         x[2], x[5] = 1, 1
                         x[i] = v
                         samples.append(x)
+                # exactly one of the two active sizes zero: not a timing descriptor either
+                for i in (2, 5):
+                    x = [0] * 18
+                    x[i] = 0x40
+                    samples.append(x)
+                    x = [0] * 18
+                    x[i + 2] = 0x30
+                    samples.append(x)
                 for x in samples:
                     rows += 1
                     got = run(x)
